@@ -100,6 +100,11 @@ FAMILY: list[ModelGrammar] = [
         "Num": ("concrete", "Lit", [("v", INT)]), "Var": ("concrete", "Atom", [("n", INT)]),
         "Add": ("concrete", "Expr", [("l", C("Expr")), ("r", C("Expr"))]),
     }, ["Num", "Var", "Add"]),
+    ModelGrammar("start symbol below the top of its hierarchy, its parent mentioned by a field", "Arith", {
+        "Expr": ("abstract", None, []), "Arith": ("abstract", "Expr", []),
+        "Paren": ("concrete", "Arith", [("inner", C("Expr"))]), "Num": ("concrete", "Arith", [("v", INT)]),
+        "Lit": ("concrete", "Expr", [("v", INT)]),
+    }, ["Paren", "Num", "Lit"]),
     ModelGrammar("three abstract levels, supplied bottom-up", "Expr", {
         "Expr": ("abstract", None, []), "Atom": ("abstract", "Expr", []), "Lit": ("abstract", "Atom", []),
         "Num": ("concrete", "Lit", [("v", INT)]), "Neg": ("concrete", "Expr", [("e", C("Atom"))]),
@@ -368,6 +373,8 @@ def interpret(ctx, g: ModelGrammar, e: int) -> tuple[Optional[dict], str]:
             if any(g.is_abstract(k.name) for k in chain):
                 chain.append(ABC_T)
             return chain + [OBJECT]
+        if nm == "__subclasses__" and isinstance(call.func, ast.Attribute) and len(args) == 1 and cname(args[0]) is not None:
+            return [C(k) for k in g.classes if cname(args[0]) in g.bases(k)]          # type.__subclasses__(cls)
         if nm == "__subclasses__" and isinstance(call.func, ast.Attribute) and not args:
             n = cname(it.ev(call.func.value, env, 9))
             if n is not None:
